@@ -612,6 +612,40 @@ def install(R):
             return BoundMethod(obj, fn.func)
         raise Unsupported("MethodType(%r)" % (fn,))
     R.fns["types.MethodType"] = _method_type
+    manhF = z3.Function("manhattan", Row, Row, z3.RealSort())
+    R.manhF = manhF
+
+    def _argmin_min(E, X=None, Y=None, metric="euclidean", **kw):
+        """pairwise_distances_argmin_min(X, Y, metric): for every row of X an index of a nearest row of Y and that distance"""
+        n, k = z(X.shape[0]), z(Y.shape[0])
+        labels = NdArr.fresh("argmin", (X.shape[0],), "int")
+        mind = NdArr.fresh("mindist", (X.shape[0],), "real")
+        fx, fy = X.snapshot(), Y.snapshot()
+        E.trace.append(dict(op="pairwise_distances_argmin_min", X=X, Y=Y, metric=metric, kwargs=kw, labels=labels, mindist=mind))
+        if metric == "manhattan":
+            r, c = z3.Int(fresh_name("r")), z3.Int(fresh_name("c"))
+            dist = lambda rr, cc: manhF(row_of(E, fx, rr), row_of(E, fy, cc))
+            E.axiom(z3.ForAll([r], z3.Implies(z3.And(r >= 0, r < n), z3.And(
+                labels.cell.term[r] >= 0, labels.cell.term[r] < k, mind.cell.term[r] == dist(r, labels.cell.term[r])))))
+            E.axiom(z3.ForAll([r, c], z3.Implies(z3.And(r >= 0, r < n, c >= 0, c < k), mind.cell.term[r] <= dist(r, c))))
+        return (labels, mind)
+    R.fns["sklearn.metrics.pairwise.pairwise_distances_argmin_min"] = _argmin_min
+    R.fns["sklearn.metrics.pairwise_distances_argmin_min"] = _argmin_min
+
+    def _manhattan(E, X, Y=None, **kw):
+        fx, fy = X.snapshot(), Y.snapshot()
+        E.trace.append(dict(op="manhattan_distances", X=X, Y=Y))
+        return NdArr.from_fn("manhattan", (X.shape[0], Y.shape[0]), "real", lambda r, c: manhF(row_of(E, fx, r), row_of(E, fy, c)))
+    R.fns["sklearn.metrics.pairwise.manhattan_distances"] = _manhattan
+    R.fns["sklearn.utils.validation.check_is_fitted"] = lambda E, *a, **k: None
+
+    def _kmeans_transform(E, self_obj, X, **kw):
+        out = NdArr.fresh("kmeans_transform", (X.shape[0], self_obj.fields.get("n_clusters")), "real")
+        E.trace.append(dict(op="KMeans.transform", obj=self_obj, X=X, result=out))
+        return out
+    R.fns["sklearn.cluster.KMeans.transform"] = _kmeans_transform
+    R.fns["sklearn.cluster.KMeans._check_test_data"] = lambda E, self_obj, X: X
+    R.ext_methods.setdefault("sklearn.cluster.KMeans", {})["_check_test_data"] = "sklearn.cluster.KMeans._check_test_data"
     R.fns["scipy.sparse.issparse"] = lambda E, X: False if isinstance(X, NdArr) else (_ for _ in ()).throw(Unsupported("issparse"))
     R.fns["sklearn.utils.extmath.row_norms"] = lambda E, X, squared=False: NdArr.fresh("row_norms", (X.shape[0],), "real")
 
